@@ -6,7 +6,7 @@ from ..nf import Poly, Tup, Const, Slice, NONE, TRUE, FALSE
 from ..effects import Effects
 from ..model import AnalysisError
 from ..ranges import Ranges
-from ..rules import run as analyse, returns, fmt, is_app, S, C, conds_str
+from ..rules import run as analyse, returns, fmt, is_app, S, C, conds_str, none_state
 from ..shapes import kw, positional
 
 EXACT_REPLICATORS = ('repeat', 'kron', 'tile')
@@ -165,7 +165,7 @@ def run(chk, repo, tier):
         rets = [p for p in returns(paths)]
         sat = [p for p in rets if any(c == cap and pol for c, pol, _ in p.conds)]
         if dt is not NONE:
-            sat = [p for p in sat if any(pol and fmt(c) == 'isnot(dtype, (None))' for c, pol, _ in p.conds)]
+            sat = [p for p in sat if none_state(p, 'dtype') is False]
         if not sat:
             raise AnalysisError('adc: saturation path not found')
         for p in sat:
